@@ -14,6 +14,7 @@ pub mod c06;
 pub mod c07;
 pub mod c09;
 pub mod c12;
+pub mod c15;
 pub mod c03;
 pub mod c04;
 
@@ -59,6 +60,10 @@ pub fn run(a: &Args) -> i32 {
         "c12" => c12::run(&env),
         "c13" => c12::run_c13(&env),
         "c14" => c12::run_c14(&env),
+        "c15" => c15::run(&env),
+        "c16" => c15::run_c16(&env),
+        "c17" => c15::run_c17(&env),
+        "c18" => c15::run_c18(&env),
         "c04" => c04::run(&env),
         x => { eprintln!("unknown stream {}", x); return 2; }
     };
